@@ -484,6 +484,12 @@ func c20ReadData(p *ana.Prog, r *ana.Result) {
 			continue
 		}
 		for _, in := range b.Instrs {
+			if c, ok := in.(*ssa.Call); ok && ana.CalleeName(&c.Call) == "(*bufio.Reader).Discard" && len(c.Call.Args) == 2 {
+				// reader.Discard(BodyLen) with its error checked: exactly BodyLen bytes are skipped or the exchange fails
+				if isRecordHdrField(ana.StripConv(c.Call.Args[1]), "BodyLen") && errResultUsed(c, 1) {
+					okSkip = true
+				}
+			}
 			if c, ok := in.(*ssa.Call); ok && (ana.CalleeName(&c.Call) == "encoding/binary.Read" || ana.CalleeName(&c.Call) == "io.ReadFull") {
 				// find a MakeSlice with len msg.BodyLen feeding it
 				ana.Instrs(fn, func(j ssa.Instruction) {
